@@ -57,12 +57,13 @@ class HistoryRun:
         return self.results[-1]
 
 
-def run_history(scenario, name="A", monitors=None, upto=None, base=None) -> HistoryRun:
+def run_history(scenario, name="A", monitors=None, upto=None, base=None, take_temp=False) -> HistoryRun:
     base = base or scratch_base()
     root = os.path.join(base, f"{scenario['seed']}-{name}")
     sched = scenario["schedule"]
     ch = Chooser(sched["seed"], mode=sched.get("mode", "seeded"), profile=sched.get("profile"))
     uni = Universe(root, ch, name=name, monitors=monitors)
+    uni.world.take_temp = take_temp
     run = HistoryRun(uni)
     phases = scenario["phases"] if upto is None else scenario["phases"][:upto]
     for ph in phases:
